@@ -362,17 +362,11 @@ def run(ctx):
         if 'sdss_flagval' not in scope[g]:
             continue
         fa_g = up.fa(g)
-        for n in walk_local(g.node):
-            v = None
-            if isinstance(n, ast.AugAssign) and isinstance(n.op, (ast.Add, ast.BitOr)):
-                v = n.value
-            elif isinstance(n, ast.Return) and n.value is not None and g is not f_val:
-                v = n.value
-            if v is None:
-                continue
-            for x in ast.walk(v):
-                if isinstance(x, ast.BinOp) and isinstance(x.op, (ast.Pow, ast.LShift)):
-                    base = try_fold(x.left)
+        for n in [g.node]:
+            v = n
+            for x in walk_local(v):
+                if isinstance(x, ast.BinOp) and isinstance(x.op, (ast.Pow, ast.LShift)) and try_fold(x.left, resolver=fa_g.resolve) in (1, 2):
+                    base = try_fold(x.left, resolver=fa_g.resolve)
                     want = 2 if isinstance(x.op, ast.Pow) else 1
                     stored = any(isinstance(s, ast.Subscript) and CACHE in src(s) for s in ast.walk(x.right))
                     contribs.append(x)
